@@ -92,7 +92,7 @@ def run(ctx):
         if k in seen:
             continue
         seen.add(k)
-        ctx.violation(f"{f['class']}: {f['what']} ({f['python'][:60]})", dict(kind="c03", **f))
+        ctx.violation(f"{f['class']}: {f['what']} ({f['python'][:60]})", {**f, "check": "c03"})
     if disagreements and not fails:
         ctx.broken.append(f"correspondence dec on foreign encodings: {len(disagreements)}; first: {disagreements[0]}")
 
